@@ -23,7 +23,7 @@ import os
 
 import vlib
 
-IMPORT_BLOCKS = ["basic", "meta", "usage", "ec", "eczero", "rsa", "private", "set"]
+IMPORT_BLOCKS = ["basic", "meta", "usage", "ec", "eczero", "rsa", "private", "set", "mix"]
 
 KNOWN_RESPLIT = "X01 jwk.import/EC coordinate lengths resplit"
 KNOWN_LEADZERO = "X01 jwk.export/RSA modulus leading zero"
@@ -55,7 +55,8 @@ def gen_plans(ctx, only=None):
     outs = {b: os.path.join(ctx.scratch, "plan.%s.ndjson" % b) for b in blocks}
 
     def work(b):
-        r = ctx.tlc("Plan_JWKSet", env={"VERIF_OUT": outs[b], "VERIF_BLK": b}, workers=1, heap="3g", timeout=1500)
+        r = ctx.tlc("Plan_JWKSet", env={"VERIF_OUT": outs[b], "VERIF_BLK": b, "VERIF_MIX": 30000 if ctx.thorough else 2000},
+                    workers=1, heap="4g", timeout=1500, extra=["-seed", str(ctx.seed)])
         if not r.ok:
             raise vlib.Infra("Plan_JWKSet block %s: %s" % (b, r.error or r.summary()))
         return b
@@ -157,12 +158,16 @@ def read_stats(ctx):
     c = collections.Counter()
     reasons = collections.Counter()
     for p in glob.glob(os.path.join(ctx.scratch, "*.stats")):
+        seen = {}
         for line in open(p):
             line = line.strip()
-            if not line:
-                continue
-            d = json.loads(json.loads(line))
+            if line:
+                d = json.loads(json.loads(line))
+                seen[d["i"]] = d["s"]       # TLC re-evaluates Next when it reconstructs an error trace: one line per position
+        for d in seen.values():
             c[(d["ev"], d["src"], d["verdict"])] += 1
+            if d["blk"] == "mix":
+                c[("import", "mix", d["verdict"])] += 1
             for r in d["gf"]:
                 reasons["refused as built: " + r] += 1
             for r in d["gp"]:
@@ -226,7 +231,8 @@ def run(ctx):
                        "is about (meta: kty x alg x crv x which key material is present; usage: use x key_ops x kid; ec: x x y x d "
                        "classes incl. one octet short / long, re-split, off curve, base64url variants; rsa: n x e classes incl. "
                        "1024 / 2047 / 2048 / 3072 bits, leading zero, e around 65537 and 2^31; private: every subset of d, p, q, dp, dq, "
-                       "qi, oth, k; set: shapes of the text, of the keys member, several keys, duplicate / unknown members) with the "
+                       "qi, oth, k; set: shapes of the text, of the keys member, several keys, duplicate / unknown members; mix: seeded random "
+                       "combinations across the blocks, 1..3 keys per set) with the "
                        "other members at a passing value and at a failing one; export cases = abstract keysets: every algorithm x kid "
                        "strategy x key id / custom kid x public / private, status mixes of 2 and 3 keys x strategies x primary, foreign "
                        "key types x status, special RSA keys; each instantiated by the driver with fresh key material, judged by TLC "
@@ -282,7 +288,7 @@ def run(ctx):
         have = {k[2] for k in classes if k[0] == "import" and k[1] == "plan"}
         if have != {"reject", "reject*", "accept*", "accept"}:
             raise vlib.Infra("coverage hole: import verdicts among the plan cases: %s" % sorted(have))
-        for need in [("import", "export", "accept"), ("import", "wycheproof", "reject"), ("export", "plan", "refused"),
+        for need in [("import", "mix", "accept"), ("import", "mix", "accept*"), ("import", "mix", "reject*"), ("import", "export", "accept"), ("import", "wycheproof", "reject"), ("export", "plan", "refused"),
                      ("export", "plan", "exported"), ("export", "plan", "exported*"), ("verify", "plan", "verified"),
                      ("verify", "plan", "not verified")]:
             if not classes.get(need):
